@@ -3,6 +3,7 @@
 package main
 
 import (
+	"os"
 	"encoding/json"
 	"fmt"
 	"reflect"
@@ -163,6 +164,10 @@ func c09Do(types []reflect.Type, o *c09Op) (res c08Res) {
 func runC09(c *Ctx) Result {
 	t := c.T
 	g := &gen{t: t}
+	if c.IsRef {
+		zooUniq = c.RefBase // generated field names continue where the parent's stood
+	}
+	zooBase := zooUniq
 	z := &zoo{g: g, cb: t.Draw(simrt.Knobs, 3) == 0, maxDep: 2 + g.d(2)}
 	capD, capE := c08Caps[t.Draw(simrt.Knobs, len(c08Caps))], c08Caps[t.Draw(simrt.Knobs, len(c08Caps))]
 	jitdec.SimResetCache(capD)
@@ -188,6 +193,15 @@ func runC09(c *Ctx) Result {
 	for _, st := range c09Static {
 		if g.d(2) == 0 {
 			types = append(types, st)
+		}
+	}
+	// near twins: the same layout with JSON names that differ only in letter case - two
+	// distinct types whose lookup tables must not be confused (CaseSensitive tells them apart)
+	twinOf := map[int]int{}
+	for i, n := 0, len(types); i < n; i++ {
+		if tw, ok := c09CaseTwin(types[i]); ok && g.d(3) == 0 {
+			twinOf[i], twinOf[len(types)] = len(types), i
+			types = append(types, tw)
 		}
 	}
 	nOps := 3 + g.d(14)
@@ -216,6 +230,10 @@ func runC09(c *Ctx) Result {
 			}
 		case 1:
 			v := z.Value(types[o.T], 0)
+			tw, hasTwin := twinOf[o.T]
+			if hasTwin && g.d(2) == 0 {
+				v = z.Value(types[tw], 0) // keys spelled the twin's way
+			}
 			b, err := json.Marshal(v.Interface())
 			if err != nil {
 				o.Kind, o.V = 0, v
@@ -237,6 +255,9 @@ func runC09(c *Ctx) Result {
 				if strings.HasPrefix(o.Text, "{") && len(o.Text) > 2 && g.d(2) == 0 {
 					o.Text = `{"zzunknown":[1,{"x":null}],` + o.Text[1:]
 				}
+			}
+			if hasTwin && g.d(2) == 0 {
+				o.Cfg = 2 + g.d(2) // CaseSensitive / DisallowUnknownFields
 			}
 		case 3:
 			n := 1 + g.d(5)
@@ -261,6 +282,15 @@ func runC09(c *Ctx) Result {
 		res.Sig = "C09:" + sig
 		res.Detail = detail + fmt.Sprintf(" | history=%v types=%v capD=%d capE=%d", opS, typeS, capD, capE)
 		return res
+	}
+
+	if c.IsRef {
+		// pristine reference process: nothing has happened here yet; execute the one call
+		simrt.PoolTape, simrt.OrderTape = nil, nil
+		if c.RefOp >= len(ops) {
+			refAnswer("NO-SUCH-OP")
+		}
+		refAnswer(c09Canon(c09Do(types, &ops[c.RefOp])))
 	}
 
 	// run the history
@@ -349,6 +379,36 @@ func runC09(c *Ctx) Result {
 			}
 		}
 	}
+	// ... and against state the resets above do not know about: one call of the history (chosen
+	// by the tape) is executed by a fresh process of this binary, which rebuilds types and
+	// operations from the same tape and runs only that call
+	var cands []int
+	for i := range ops {
+		if ops[i].Kind <= 1 {
+			cands = append(cands, i)
+		}
+	}
+	var sharp []int // calls whose result hinges on per-type tables (exact-case lookups, unknown-field detection)
+	for _, i := range cands {
+		if ops[i].Kind == 1 && ops[i].Cfg >= 2 {
+			sharp = append(sharp, i)
+		}
+	}
+	if len(cands) > 0 && !c09NoPristine && t.Draw(simrt.Knobs, 2) == 0 {
+		i := cands[t.Draw(simrt.Knobs, len(cands))]
+		if len(sharp) > 0 && t.Draw(simrt.Knobs, 2) == 0 {
+			i = sharp[t.Draw(simrt.Knobs, len(sharp))]
+		}
+		ans, err := pristine(c, "C09", i, zooBase)
+		if err != nil {
+			c.inc("harness_pristine_process_failed")
+			fmt.Fprintln(os.Stderr, "C09: pristine reference process failed:", err)
+		} else if mine := c09Canon(got[i]); ans != mine {
+			return fail("differs-from-pristine-process:"+c09KindName(ops[i].Kind), fmt.Sprintf("op %d %s gave %s after this history (and again after resetting the known caches), but a fresh process answers %s", i, &ops[i], clip(mine, 300), clip(ans, 300)))
+		} else {
+			c.inc("calls_checked_vs_pristine_process")
+		}
+	}
 	for _, s := range suspects {
 		if ops[s.i].Kind > 1 {
 			return fail("pretouch-failed:"+c09KindName(ops[s.i].Kind), fmt.Sprintf("op %d %s returned %s", s.i, &ops[s.i], got[s.i]))
@@ -362,3 +422,58 @@ func c09KindName(k int) string {
 }
 
 var _ = strings.Repeat
+
+// c09CaseTwin returns the struct type with the same fields whose JSON names have the case of
+// their first letter flipped (ok=false when ty is not an unnamed struct or nothing changes).
+func c09CaseTwin(ty reflect.Type) (reflect.Type, bool) {
+	if ty.Kind() != reflect.Struct || ty.Name() != "" || ty.NumField() == 0 {
+		return nil, false
+	}
+	changed := false
+	fs := make([]reflect.StructField, ty.NumField())
+	for i := range fs {
+		f := ty.Field(i)
+		tag, has := f.Tag.Lookup("json")
+		name, rest := tag, ""
+		if k := strings.IndexByte(tag, ','); k >= 0 {
+			name, rest = tag[:k], tag[k:]
+		}
+		if tag == "-" || f.Anonymous || f.PkgPath != "" {
+			fs[i] = f
+			continue
+		}
+		if !has || name == "" {
+			name = f.Name
+		}
+		b := []byte(name)
+		if b[0] >= 'a' && b[0] <= 'z' {
+			b[0] -= 32
+			changed = true
+		} else if b[0] >= 'A' && b[0] <= 'Z' {
+			b[0] += 32
+			changed = true
+		}
+		if strings.ContainsAny(string(b), "\"\\`") {
+			fs[i] = f
+			continue
+		}
+		f.Tag = reflect.StructTag(`json:"` + string(b) + rest + `"`)
+		fs[i] = f
+	}
+	if !changed {
+		return nil, false
+	}
+	defer func() { recover() }()
+	return reflect.StructOf(fs), true
+}
+
+var c09NoPristine = os.Getenv("VERIF_NO_PRISTINE") != ""
+
+// c09Canon renders a result so that two processes can compare it.
+func c09Canon(r c08Res) string {
+	v := "-"
+	if r.Val != nil {
+		v = deepShow(reflect.ValueOf(r.Val))
+	}
+	return "out=" + r.Out + "|err=" + r.Err + "|panic=" + r.Panic + "|val=" + v
+}
